@@ -1,1 +1,105 @@
-// wip
+// Sidecar for unit `milu_access` -- C08: indexing, tuple access, conditional, membership; C18 for check-time bodies.
+// Bodies: `impl Indexable for Vec<Value>` (script.rs), `Index`, `Access` (its nested `tuple` / `accessible` fns),
+// `If`, `IsMemberOf` (stdlib.rs) -- all taken from rustc's expansion (they use the repo macros `args!` / `bail!`).
+// Property text: "indexing, membership ... behaving as documented - or one of the inherently dynamic errors (...,
+// index out of range, ...)"; "never crashes the process"; C18: a posted rule never aborts the process while checked
+// (`Access::signature` runs at load time).
+//
+// Arity preconditions.  `Index`, `Access`, `If` are not bound to any name in the script context: the only producer is
+// the parser (parser.rs:32-41, 429: `Index::make_call(p1, p2)`, `If::make_call(cond, yes, no)`), which fixes the
+// argument count.  Hence `requires args@.len() >= 2 / 3` on the bodies that index `args[..]` directly.  Bodies that go
+// through `args!` need no such precondition (and must not panic on short lists).
+// (spec side of the cast_value! conversions: see shims/milu.rs; the impl bodies are extracted and checked here)
+
+// ---------------------------------------------------------------- Vec<Value> as Indexable
+// "a negative index counts from the end; anything outside -len..len is an error" -- for ALL i64 and all lengths.
+//@ contract VecValue::get
+        ensures
+            (0 <= index < self@.len()) ==> ret == Ok::<Value, Error>(self@[index as int]),
+            (0 - self@.len() <= index < 0) ==> ret == Ok::<Value, Error>(self@[self@.len() + index]),
+            (index >= self@.len() || index < 0 - self@.len()) ==> ret is Err,
+//@ end
+//@ contract VecValue::length
+        ensures ret == self@.len(),
+//@ end
+
+// ---------------------------------------------------------------- Index
+//@ contract Index::signature
+        requires args@.len() >= 2,
+//@ end
+//@ contract Index::call
+        ensures args@.len() < 2 ==> ret is Err,
+//@ end
+
+// ---------------------------------------------------------------- Access on tuples (check time and run time)
+// `(a, b, c).N`: N is a literal.  In range => the N-th member type / value; anything else is an error, never a panic.
+spec fn tuple_idx_ok(len: nat, index: Value) -> bool {
+    index is Integer && 0 <= index->Integer_0 < len
+}
+//@ contract Access_signature::tuple
+        ensures
+            match obj {
+                Type::Tuple(t) => if tuple_idx_ok(t@.len(), *index) { ret == Ok::<Type, Error>(t@[index->Integer_0 as int]) } else { ret is Err },
+                _ => ret is Err,
+            },
+//@ end
+//@ contract Access_call::tuple
+        ensures
+            match obj {
+                Value::Tuple(t) => if tuple_idx_ok(t@.len(), *index) { ret == value_spec(t@[index->Integer_0 as int], ctx) } else { ret is Err },
+                _ => ret is Err,
+            },
+//@ end
+//@ contract Access_signature_a::accessible
+        ensures !(index is Identifier) ==> ret is Err,
+//@ end
+//@ contract Access_call_a::accessible
+        ensures !(index is Identifier) ==> ret is Err,
+//@ end
+
+// ---------------------------------------------------------------- If
+//@ contract If::signature
+        ensures
+            ret is Ok ==> (args@.len() >= 3 && type_spec(args@[1], ctx) == ret),
+//@ end
+//@ loop If::signature 0
+                    invariant
+                        targs@.len() == vf_it.index@,
+                        forall|k: int| 0 <= k < targs@.len() ==> type_spec(args@[k], ctx) == Ok::<Type, Error>(#[trigger] targs@[k]),
+//@ end
+// "conditional ... behaving as documented": exactly one branch is evaluated, chosen by the condition; a condition
+// that is not a boolean is an error.
+//@ contract If::call
+        requires args@.len() >= 3,
+        ensures
+            match value_spec(args@[0], ctx) {
+                Ok(Value::Boolean(c)) => ret == (if c { value_spec(args@[1], ctx) } else { value_spec(args@[2], ctx) }),
+                _ => ret is Err,
+            },
+//@ end
+
+// ---------------------------------------------------------------- IsMemberOf
+//@ contract IsMemberOf::signature
+        ensures
+            ret is Ok ==> (ret->Ok_0 == Type::Boolean && args@.len() >= 2),
+//@ end
+//@ loop IsMemberOf::signature 0
+                    invariant targs@.len() == vf_it.index@,
+//@ end
+//@ contract IsMemberOf::call
+        ensures
+            ret is Ok ==> has_type(ret->Ok_0, Type::Boolean),
+            args@.len() < 2 ==> ret is Err,
+//@ end
+//@ loop IsMemberOf::call 0
+                    invariant args@.len() >= 2,
+//@ end
+
+// ---------------------------------------------------------------- Access (outer bodies, extracted directly from
+// stdlib.rs: hand-written, `trace!` / `bail!` are the shim macros; the nested fn items are part of the text)
+//@ contract Access::signature
+        requires args@.len() >= 2,
+//@ end
+//@ contract Access::call
+        requires args@.len() >= 2,
+//@ end
